@@ -641,11 +641,21 @@ class World:
                         attrs |= {m.split(".")[-1] for m in con.modifies}
         return attrs
 
+    @staticmethod
+    def _callable_object_name(it, f):
+        """`obj(...)` where obj is a symbolic object: the call goes to Class.__call__."""
+        if isinstance(f, ast.Name):
+            v = it.st.env.get(f.id)
+            if isinstance(v, VObj) and isinstance(v.cls, type):
+                return f"{v.cls.__name__}.__call__"
+        return None
+
     def callee_ghost_modifies(self, it, calls):
         out = set()
         for c in calls:
             f = c.func
             name = f.attr if isinstance(f, ast.Attribute) else (f.id if isinstance(f, ast.Name) else None)
+            name = self._callable_object_name(it, f) or name
             if name is None:
                 continue
             v = it.st.env.get(name)
@@ -660,6 +670,7 @@ class World:
         for c in calls:
             f = c.func
             name = f.attr if isinstance(f, ast.Attribute) else (f.id if isinstance(f, ast.Name) else None)
+            name = self._callable_object_name(it, f) or name
             if name is None:
                 continue
             for q, con in self.contracts.items():
